@@ -351,7 +351,25 @@ pub fn run_batch(prog: &Program, pr: &Printed, c: &Compiled, arg_tuples: &[Vec<V
                             return Err(format!("parse_output gives {lit} for an expected {}", ty::val_text(v, &main.ret, defs)));
                         }
                     }
-                    (Err(garble_lang::eval::EvalError::Panic(_)), Expect::Panic(_)) => {}
+                    (Err(garble_lang::eval::EvalError::Panic(p)), Expect::Panic(_)) => {
+                        // the decoded panic (reason, location) is the record the circuit produced,
+                        // as the harness reads it off the 161 panic bits
+                        let reason = match p.reason {
+                            garble_lang::circuit::PanicReason::Overflow => 1,
+                            garble_lang::circuit::PanicReason::DivByZero => 2,
+                            garble_lang::circuit::PanicReason::OutOfBounds => 3,
+                        };
+                        let (s, e) = (p.panicked_at.start, p.panicked_at.end);
+                        let decoded = Observed::Panic { reason, start: (s.0 as u32, s.1 as u32), end: (e.0 as u32, e.1 as u32) };
+                        let raw = observe(&outs[0], 0, &main.ret, defs);
+                        let same = match (&decoded, &raw) {
+                            (Observed::Panic { reason: r1, start: s1, end: e1 }, Observed::Panic { reason: r2, start: s2, end: e2 }) => r1 == r2 && s1 == s2 && e1 == e2,
+                            _ => false,
+                        };
+                        if !same {
+                            return Err(format!("parse_output decodes the panic record as {:?}, the output bits say {:?}", describe_observed(&decoded, &main.ret, defs), describe_observed(&raw, &main.ret, defs)));
+                        }
+                    }
                     (other, _) => return Err(format!("parse_output gives {other:?}")),
                 }
                 Ok(())
